@@ -54,6 +54,7 @@ package main
 //@   let a = algoof(jsstring(args[4]))
 //@   let key = b32key(jsstring(args[0]))
 //@   let code = jsstring(args[1])
+//@   requires len(args) == 6 && narg(args[2]) ==> c <= 9007199254740992
 //@   ensures[error] !(ok && b32ok(jsstring(args[0]))) ==> iserr(r)
 //@   ensures[window] ok && b32ok(jsstring(args[0])) ==> isbool(r, len(code) == d &&
 //@ |    exists j in -10..10 :: -s <= j && j <= s && c + j >= 0 && code == hotp(a, key, c + j, d))
